@@ -20,7 +20,7 @@ CHECKS = {
     },
     "C02": {
         "test": "TestC02", "level": "exploration", "crashy": True,
-        "quick": {"shards": 8, "checks": 6000, "timeout": 900},
+        "quick": {"shards": 8, "checks": 12000, "timeout": 900},
         "thorough": {"shards": 16, "checks": 25000, "timeout": 3400},
         "rule": "bundles of 1-3 files, 1-3 namespaces, up to 7 templates over the whole command grammar (text, special chars, literal, "
                 "if/elseif/else, switch, for/foreach/ifempty, let value/content, call with data=all / data=$expr / value and content params / "
@@ -34,7 +34,7 @@ CHECKS = {
     },
     "C03": {
         "test": "TestC03", "level": "exploration", "crashy": True,
-        "quick": {"shards": 8, "checks": 5000, "timeout": 900},
+        "quick": {"shards": 8, "checks": 8000, "timeout": 900},
         "thorough": {"shards": 16, "checks": 60000, "timeout": 3400},
         "exhaustive_key": "exhaustive_grid_cases",
         "exhaustive_note": "shard 0 enumerates every single byte and every pair/triple of the five specials x 9 carriers x 4 mode classes x 5 chains (quick: a deterministic third of that grid); the random part is not exhaustive",
@@ -51,7 +51,7 @@ CHECKS = {
     },
     "C04": {
         "test": "TestC04", "level": "translation_validation", "needs_node": True,
-        "quick": {"shards": 8, "checks": 2000, "timeout": 900},
+        "quick": {"shards": 8, "checks": 3000, "timeout": 900},
         "thorough": {"shards": 16, "checks": 8000, "timeout": 3400},
         "rule": "bundles of the common subset (boolean operands for and/or/not, same-kind equality, no collection printing, no key-order dependence, "
                 "ints within 2^53, directives noAutoescape/id/escapeHtml/truncate/changeNewlineToBr/insertWordBreaks) over the whole command grammar "
@@ -81,7 +81,7 @@ CHECKS = {
     },
     "C06": {
         "test": "TestC06", "level": "exploration", "crashy": True,
-        "quick": {"shards": 8, "checks": 4000, "timeout": 900},
+        "quick": {"shards": 8, "checks": 8000, "timeout": 900},
         "thorough": {"shards": 16, "checks": 60000, "timeout": 3400},
         "rule": "well-typed generated bundles whose expressions are wrapped in operators/functions/directives with no regard for types or "
                 "arities (any value kind at any operand, unknown functions and directives, non-positive range steps, loop functions on "
@@ -95,7 +95,7 @@ CHECKS = {
     },
     "C07": {
         "test": "TestC07", "level": "exploration", "crashy": True,
-        "quick": {"shards": 8, "checks": 200, "timeout": 900},
+        "quick": {"shards": 8, "checks": 400, "timeout": 900},
         "thorough": {"shards": 16, "checks": 3000, "timeout": 3400},
         "rule": "valid bundles from the program generator (shadowing, data=all forwarding, content params, header or soydoc params, $ij) and, for "
                 "each, every single-rule violation at every applicable site (use before definition, self-reference in a let's own definition, "
@@ -110,7 +110,7 @@ CHECKS = {
     },
     "C08": {
         "test": "TestC08", "level": "exploration", "crashy": True,
-        "quick": {"shards": 8, "checks": 250, "timeout": 900},
+        "quick": {"shards": 8, "checks": 600, "timeout": 900},
         "thorough": {"shards": 16, "checks": 4000, "timeout": 3400},
         "rule": "histories of 4-25 (thorough 60) operations over one compiled bundle: renders of any template with its own data or with data of "
                 "arbitrary shape (failing renders), renders with a message bundle, JavaScript generation with and without the bundle, and "
@@ -137,7 +137,7 @@ CHECKS = {
     },
     "C10": {
         "test": "TestC10", "level": "exploration",
-        "quick": {"shards": 8, "checks": 400, "timeout": 900},
+        "quick": {"shards": 8, "checks": 1000, "timeout": 900},
         "thorough": {"shards": 16, "checks": 6000, "timeout": 3400},
         "rule": "messages whose placeholders collide on base names by construction ($x, $x_1, $x_2, $a.x, $b.x, the same variable with different "
                 "directives, camel-case and digit names, arbitrary expressions incl. pairs differing only in parentheses, 17 HTML tags of every naming "
@@ -152,7 +152,7 @@ CHECKS = {
     },
     "C11": {
         "test": "TestC11", "level": "exploration", "needs_node": True, "needs_extractor": True,
-        "quick": {"shards": 8, "checks": 120, "timeout": 900},
+        "quick": {"shards": 8, "checks": 300, "timeout": 900},
         "thorough": {"shards": 16, "checks": 2500, "timeout": 3400},
         "rule": "bundles of 1-3 messages from the colliding-placeholder generator (plurals mostly [case 1, default], some not representable in PO) x "
                 "catalogue in {identity, reversing, rotating, partial} x locale in {en (2 forms), ja (1), cs (3)} x plural subject in {0,1,2,3,5,11,21}; "
@@ -165,7 +165,7 @@ CHECKS = {
     },
     "C12": {
         "test": "TestC12", "level": "fault_enumeration",
-        "quick": {"shards": 8, "checks": 250, "timeout": 900},
+        "quick": {"shards": 8, "checks": 800, "timeout": 900},
         "thorough": {"shards": 16, "checks": 4000, "timeout": 3400},
         "rule": "for each generated program (whole command grammar, data satisfying the params) the fault-free run's W write calls and B bytes are "
                 "enumerated completely: a failing writer at every call index (dead and transient variants) and a short writer at every byte offset "
@@ -177,7 +177,7 @@ CHECKS = {
     },
     "C13": {
         "test": "TestC13", "level": "exploration",
-        "quick": {"shards": 8, "checks": 400, "timeout": 900},
+        "quick": {"shards": 8, "checks": 600, "timeout": 900},
         "thorough": {"shards": 16, "checks": 2500, "timeout": 3400},
         "rule": "bundles of 1-3 files with many cross-file calls (ES6 imports), messages with colliding placeholder names, map literals, optionally one "
                 "injected compile error; each compiled 12 (thorough 30) more times in-process, under every permutation of file order (exhaustive up "
@@ -191,7 +191,7 @@ CHECKS = {
     },
     "C14": {
         "test": "TestC14", "level": "translation_validation", "needs_node": True,
-        "quick": {"shards": 8, "checks": 400, "timeout": 900},
+        "quick": {"shards": 8, "checks": 800, "timeout": 900},
         "thorough": {"shards": 16, "checks": 6000, "timeout": 3400},
         "rule": "closed bundles (namespaces of 1-4 segments, one or two files) that print 1-6 literal strings - single ASCII bytes, pieces from a hostile "
                 "alphabet (quotes, backslashes, line terminators U+2028/2029, </script>, ]]>, comment markers, NUL and other controls, BOM, astral and "
@@ -220,7 +220,7 @@ CHECKS = {
     },
     "C16": {
         "test": "TestC16", "level": "exploration", "needs_node": True,
-        "quick": {"shards": 8, "checks": 2500, "timeout": 900},
+        "quick": {"shards": 8, "checks": 4000, "timeout": 900},
         "thorough": {"shards": 16, "checks": 40000, "timeout": 3400},
         "rule": "strings (arbitrary Unicode, arbitrary bytes incl. invalid UTF-8 on the Go side, pieces from a hostile alphabet, runs of 50-2000 repetitions) "
                 "and nested values (json) through one directive (escapeUri, escapeJsString, json, changeNewlineToBr, insertWordBreaks, truncate with limits "
@@ -248,7 +248,7 @@ CHECKS = {
     },
     "C18": {
         "test": "TestC18", "level": "exploration", "crashy": True,
-        "quick": {"shards": 6, "checks": 250, "timeout": 900, "shrinktime": "30s"},
+        "quick": {"shards": 6, "checks": 500, "timeout": 900, "shrinktime": "30s"},
         "thorough": {"shards": 16, "checks": 3000, "timeout": 3400, "shrinktime": "60s"},
         "rule": "sequences of 1-30 (thorough 80) parses per case drawn from the C05 families plus complete expressions followed by trailing tokens, "
                 "through parse.SoyFile, parse.Expr and soy.ParseGlobals; non-trivial = the sequence has trailing tokens after a complete "
@@ -260,7 +260,7 @@ CHECKS = {
     },
     "C19": {
         "test": "TestC19", "level": "exploration",
-        "quick": {"shards": 8, "checks": 250, "timeout": 900},
+        "quick": {"shards": 8, "checks": 600, "timeout": 900},
         "thorough": {"shards": 16, "checks": 4000, "timeout": 3400},
         "rule": "valid files built one construct per line (9 block kinds nested up to depth 2, 16 simple constructs, optional header lines, LF or CRLF, 5 file "
                 "names); parse side: one of 9 fault kinds inserted before EVERY body line in turn; render side: a failing print, or a call chain of "
@@ -273,7 +273,7 @@ CHECKS = {
     },
     "C20": {
         "test": "TestC20", "level": "exploration",
-        "quick": {"shards": 4, "checks": 4000, "timeout": 600},
+        "quick": {"shards": 4, "checks": 20000, "timeout": 600},
         "thorough": {"shards": 16, "checks": 60000, "timeout": 3000},
         "rule": "pairs of Go values built from generated recipes (every reflect kind the converter accepts, nil "
                 "pointers/slices/maps, embedded/unexported fields, marshalers, both struct options, 4 time formats) "
